@@ -537,6 +537,15 @@ class EvalMixin(CallMixin):
         k = t.key()
         return k.startswith(cls.STDLIB_CONST_PREFIXES) and "(" not in k and "[" not in k
 
+    def _never_none(self, app) -> bool:
+        """the un-evaluated result of a repository function whose declared return type excludes None (`-> bytes`, `-> tuple[...]`)"""
+        fi = self.repo.funcs.get(app.fname) if isinstance(app.fname, str) else None
+        ann = getattr(fi.node, "returns", None) if fi is not None else None
+        if ann is None:
+            return False
+        txt = ast.unparse(ann)
+        return not any(w in txt for w in ("None", "Optional", "Any", "object")) and not isinstance(ann, ast.Constant)
+
     def compare(self, op, l, r, node, fr) -> bool:
         if op in ("Eq", "Is") and (self.ext_const(l) or self.ext_const(r)):
             if self.ext_const(l) and self.ext_const(r):
@@ -556,6 +565,8 @@ class EvalMixin(CallMixin):
             if l is None or r is None:
                 other = r if l is None else l
                 if isinstance(other, Term):
+                    if isinstance(other, App) and self._never_none(other):
+                        return False
                     return self.decide(f"isnone({vkey(other)})", node)
                 return other is None
             if isinstance(l, Term) or isinstance(r, Term):
@@ -565,6 +576,8 @@ class EvalMixin(CallMixin):
                 return self.decide(f"is({a},{b})", node)
             if isinstance(l, (bool, int, str, EnumVal, Atom, Obj, ClassRef, FuncRef)) or isinstance(r, (bool, int, str, EnumVal, Atom, Obj)):
                 return l is r or (type(l) is type(r) and isinstance(l, (bool, int, str)) and l == r) or (isinstance(l, (ClassRef, FuncRef)) and l == r)
+            if isinstance(l, BuiltinRef) and isinstance(r, BuiltinRef):
+                return l.name == r.name
             return l is r
         if op == "Eq":
             if isinstance(l, Term) or isinstance(r, Term):
